@@ -22,6 +22,9 @@ pub enum Alter {
     AllBitFlips,
     /// these patches, applied before open (None) or after history operation `after_op`
     Patches { patches: Vec<Patch>, after_op: Option<usize> },
+    /// these patches, applied to the stored bytes at device operation number `at` of the reader
+    /// session (counted from the open): in the middle of whatever library call is in progress
+    AtDeviceOp { patches: Vec<Patch>, at: u64 },
 }
 
 #[derive(Clone, Debug, Serialize, Deserialize)]
@@ -49,7 +52,7 @@ fn pristine_of(case: &Case, hist: &[ROp]) -> Result<Pristine, (String, String)> 
 }
 
 /// Judge one altered image with a history. Patches may be applied midway.
-fn judge(pr: &Pristine, hist: &[ROp], patches: &[Patch], after_op: Option<usize>, rchunk: &Chunk, st: &mut RunStats) -> Option<(String, String)> {
+fn judge(pr: &Pristine, hist: &[ROp], patches: &[Patch], after_op: Option<usize>, at_dev: Option<u64>, rchunk: &Chunk, st: &mut RunStats) -> Option<(String, String)> {
     let mut altered = pr.image.clone();
     for p in patches {
         p.apply(&mut altered);
@@ -86,7 +89,12 @@ fn judge(pr: &Pristine, hist: &[ROp], patches: &[Patch], after_op: Option<usize>
             }
         }
     }
-    let start_image = if after_op.is_some() { pr.image.clone() } else { altered.clone() };
+    let start_image = if after_op.is_some() || at_dev.is_some() { pr.image.clone() } else { altered.clone() };
+    if let Some(at) = at_dev {
+        // the stored bytes change at a device-operation instant of this session
+        let base = ctx.borrow().op_no;
+        ctx.borrow_mut().faults.push(Fault { at: base + at, kind: FaultKind::Mutate(patches.to_vec()) });
+    }
     let disk = SimDisk::new(&ctx, DEV_DISK2, start_image, rchunk);
     let mut r = match E57Reader::new(disk.clone()) {
         Ok(r) => r,
@@ -96,7 +104,7 @@ fn judge(pr: &Pristine, hist: &[ROp], patches: &[Patch], after_op: Option<usize>
         }
     };
     // everything the reader holds in memory must be pristine
-    if after_op.is_none() {
+    if after_op.is_none() && at_dev.is_none() {
         if let Some(OpRec { result: OpResult::Xml(px), .. }) = pr.run.recs.iter().find(|r| matches!(r.result, OpResult::Xml(_))) {
             if r.xml() != px {
                 return Some(("xml-differs".into(), format!("E57Reader::new accepted the altered file and xml() returns {} bytes instead of {}", r.xml().len(), px.len())));
@@ -131,6 +139,9 @@ fn judge(pr: &Pristine, hist: &[ROp], patches: &[Patch], after_op: Option<usize>
             }
             st.probe("page_altered_between_operations", true);
         }
+    }
+    if at_dev.is_some() {
+        st.probe("page_altered_inside_an_operation", ctx.borrow().fired.iter().any(|f| f.name == "mutate"));
     }
     None
 }
@@ -217,7 +228,7 @@ fn run_case(case: &Case, st: &mut RunStats) -> Outcome<Case> {
             for bit in 0..bits {
                 st.evaluations += 1;
                 let patch = Patch::Xor { offset: bit / 8, mask: 1 << (bit % 8) };
-                if let Some((class, detail)) = judge(&pr, &hist, std::slice::from_ref(&patch), None, &case.rchunk, st) {
+                if let Some((class, detail)) = judge(&pr, &hist, std::slice::from_ref(&patch), None, None, &case.rchunk, st) {
                     let narrowed = Case { alter: Alter::Patches { patches: vec![patch.clone()], after_op: None }, hist: hist.clone(), ..case.clone() };
                     return Outcome::fail_narrowed(class, format!("single-bit flip {patch:?}: {detail}"), narrowed);
                 }
@@ -233,13 +244,30 @@ fn run_case(case: &Case, st: &mut RunStats) -> Outcome<Case> {
                 st.sample = Some(json!({"mode": "every single-bit flip", "file_bytes": pr.image.len(), "bits": bits, "history": hist.iter().map(|o| format!("{o:?}")).collect::<Vec<_>>()}));
             }
         }
+        Alter::AtDeviceOp { patches, at } => {
+            st.evaluations += 1;
+            let pr = match pristine_of(case, &case.hist) {
+                Ok(p) => p,
+                Err((c, d)) => return Outcome::fail(c, d),
+            };
+            if let Some((class, detail)) = judge(&pr, &case.hist, patches, None, Some(*at), &case.rchunk, st) {
+                return Outcome::fail(format!("{class}-mid-operation"), detail);
+            }
+            let mut fp = Digest::new();
+            fp.u64(77).u64(*at).u64(case.hist.len() as u64).u64(patches.len() as u64);
+            st.fingerprint(fp.finish());
+            if st.sample.is_none() {
+                st.sample = Some(json!({"mode": "alteration at a device-operation instant", "patches": format!("{patches:?}"), "at_device_op": at,
+                    "history": case.hist.iter().map(|o| format!("{o:?}")).collect::<Vec<_>>(), "file_bytes": pr.image.len()}));
+            }
+        }
         Alter::Patches { patches, after_op } => {
             st.evaluations += 1;
             let pr = match pristine_of(case, &case.hist) {
                 Ok(p) => p,
                 Err((c, d)) => return Outcome::fail(c, d),
             };
-            if let Some((class, detail)) = judge(&pr, &case.hist, patches, *after_op, &case.rchunk, st) {
+            if let Some((class, detail)) = judge(&pr, &case.hist, patches, *after_op, None, &case.rchunk, st) {
                 return Outcome::fail(class, detail);
             }
             for r in &pr.run.recs {
@@ -273,7 +301,7 @@ impl Prop for C07 {
     fn meta(&self) -> Meta {
         Meta {
             level: "fault_enumeration",
-            rule: "pristine file (crate writer or refcodec producer, 2-40 pages, several sections) -> alteration -> reader history. Run indices 0..4 (0..24 in thorough) enumerate EVERY single-bit flip of every page of a small file, each judged with validate_crc, raw_xml, open, xml, listings, raw + simple iteration of every cloud and every blob. Other indices sample alterations (1-3 bit flips in a page, bursts <= 32 bits, 1-64 byte overwrites, checksum-only damage, zeroed bytes, header bytes of page 0, two pages) applied before open or BETWEEN two operations of a 1-8 operation history (a page goes bad while it may be the cached page). Oracle: validate_crc is Ok on the pristine file and Err on every altered one (altered = independent bitwise CRC-32C of a page payload differs from its stored big-endian checksum; an alteration that is not detectable this way, a 2^-32 event, is counted and skipped); every operation is Err or equals the pristine result, also after earlier failures on the same reader; pages written by the library carry the independent CRC-32C; the whole batch is executed by a second harness build with the crc32c cargo feature and the per-run digests (file bytes, results) must be identical. Distinct = alteration shape x history; every enumerated alteration is non-trivial".into(),
+            rule: "pristine file (crate writer or refcodec producer, 2-40 pages, several sections) -> alteration -> reader history. Run indices 0..4 (0..24 in thorough) enumerate EVERY single-bit flip of every page of a small file, each judged with validate_crc, raw_xml, open, xml, listings, raw + simple iteration of every cloud and every blob. Other indices sample alterations (1-3 bit flips in a page, bursts <= 32 bits, 1-64 byte overwrites, checksum-only damage, zeroed bytes, header bytes of page 0, two pages) applied before open, BETWEEN two operations of a 1-8 operation history (a page goes bad while it may be the cached page), or at a drawn device-operation instant INSIDE whatever call is in progress (SimDisk's Mutate fault). Oracle: validate_crc is Ok on the pristine file and Err on every altered one (altered = independent bitwise CRC-32C of a page payload differs from its stored big-endian checksum; an alteration that is not detectable this way, a 2^-32 event, is counted and skipped); every operation is Err or equals the pristine result, also after earlier failures on the same reader; pages written by the library carry the independent CRC-32C; the whole batch is executed by a second harness build with the crc32c cargo feature and the per-run digests (file bytes, results) must be identical. Distinct = alteration shape x history; every enumerated alteration is non-trivial".into(),
             assumptions: vec![
                 "E57Reader::header() and the static raw_xml on a damaged page 0 are outside the property's list of read operations".into(),
                 "misplaced pages that carry their own valid checksum are not 'altered pages' in the sense of this property".into(),
@@ -285,6 +313,7 @@ impl Prop for C07 {
                 "read_failed_on_altered_page".into(),
                 "read_ok_after_earlier_failure".into(),
                 "page_altered_between_operations".into(),
+                "page_altered_inside_an_operation".into(),
                 "open_rejected_altered_file".into(),
                 "second_crc_backend_compared".into(),
             ],
@@ -359,6 +388,11 @@ impl Prop for C07 {
         let mut f = Rng::stream(rc.run_seed, "fault");
         let len = build_image(&prog, &source, None).map(|(i, _)| i.len()).unwrap_or(1024);
         let patches = draw_alteration(&mut f, len);
+        if f.chance(1, 3) {
+            // an instant inside the session: biased to early operations (open, first packets)
+            let at = if f.chance(1, 2) { f.below(12) } else { f.below(400) };
+            return Case { prog, source, alter: Alter::AtDeviceOp { patches, at }, hist, rchunk };
+        }
         let after_op = if f.chance(1, 2) { Some(f.usize_below(hist.len())) } else { None };
         Case { prog, source, alter: Alter::Patches { patches, after_op }, hist, rchunk }
     }
@@ -400,6 +434,9 @@ impl Prop for C07 {
             }
         }
         out
+    }
+    fn wants_digests(&self) -> bool {
+        true
     }
     fn cross_check(&self, opts: &Options, runs: u64, digests: &[(u64, u64)], counters: &mut BTreeMap<String, u64>) -> Result<Option<(u64, String, String)>, String> {
         let exe = std::env::var("E57SIM_HW").map_err(|_| "E57SIM_HW (harness built with the crc32c feature) is not set; run through ./check".to_string())?;
@@ -449,6 +486,9 @@ impl Prop for C07 {
                 }
                 None => return Err(format!("crc32c build did not report run {i}")),
             }
+        }
+        if compared == 0 || compared != runs {
+            return Err(format!("cross check compared {compared} of {runs} runs"));
         }
         counters.insert("probe.second_crc_backend_compared".into(), compared);
         Ok(None)
